@@ -494,6 +494,15 @@ def exact_family():
     for P in ([], ["Holder"], ["statFn"], ["Holder.statFn"], ["Elsewhere.statFn"], ["Elsewhere.otherStat", "statFn"],
               ["Holder.otherStat"], ["x"], ["Elsewhere.Holder"]):
         out.append(("RMoveStatic", src, P))
+    # delete_unreachable_code: members of a class body after a blocking statement (hunt C07-0)
+    for blocker in ("raise ValueError", "assert False", "while True:\n        pass"):
+        src = (f"class A:\n    {blocker}\n    afterVar = 2\n    def after_func(self):\n        return self\n"
+               "    class AfterClass:\n        pass\n    annAfter: int = 3\n")
+        keys = ["afterVar", "after_func", "AfterClass", "annAfter", "A.afterVar", "A.after_func", "A.AfterClass", "A"]
+        for k in range(0, 3):
+            for P in itertools.combinations(keys, k):
+                out.append(("RUnreachable", src, list(P)))
+        out.append(("RUnreachable", src, keys))
     # delete_pointless_statements: `_`
     for s in UNDERSCORE_FAMILY[:4]:
         out.append(("RPointless", s, []))
